@@ -106,6 +106,89 @@ def byte_form(e, var):
     return None
 
 
+_STORE = {}
+
+
+def store_helper(ctx, name):
+    """name(self, header: &mut [u8]) -> &[u8] is an "encrypt and keep" helper of the half: it
+    applies the raw operation once to the whole `header`, copies the result position by
+    position to the front of the output buffer, writes nothing else and returns exactly the
+    first header.len() bytes of that buffer.  Returns the buffer field index, else None."""
+    key = (id(ctx.fb), name)
+    if key in _STORE:
+        return _STORE[key]
+    _STORE[key] = None
+    fb = ctx.fb
+    b = fb.body(name)
+    if b is None or not name.startswith(ENC + "::") or len(b.d.get("inputs", [])) != 2:
+        return None
+    se = ctx.flat.run(name)
+    if se is None or se.ret is None:
+        return None
+    from rules import loopsem
+
+    self_root = ("deref", ("param", 1))
+    data_root = ("deref", ("param", 2))
+    sh = [i for i, f in enumerate(fb.adt_fields(ENC)) if fb.ty(f["ty"]).k == "array"]
+    cf = [i for i, f in enumerate(fb.adt_fields(ENC)) if fb.ty(f["ty"]).peel_refs().path == IC]
+    if len(sh) != 1:
+        return None
+    buf = ("field", self_root, sh[0])
+    blen = fb.ty(fb.adt_fields(ENC)[sh[0]]["ty"]).len
+    calls = [se.term_info[bb] for bb in sorted(se.term_info) if se.term_info[bb].get("k") == "call"]
+    raws = [c for c in calls if c["name"] in (ENC + "::encrypt", IC + "::apply")]
+    if len(raws) != 1:
+        return None
+    la = raws[0]["locargs"]
+    recv_ok = la[0] == ("ref", self_root, True) if raws[0]["name"] == ENC + "::encrypt" else (len(cf) == 1 and la[0] == ("ref", ("field", self_root, cf[0]), True))
+    if not (recv_ok and la[1] == ("ref", data_root, True) and se.call_old.get((raws[0]["site"], 1)) == data_root):
+        return None
+    enc_data = ("after", raws[0]["term"], 1, data_root)
+
+    def lens(base):
+        if strip(base) == strip(enc_data) or strip(base) == ("param", 2):
+            return lambda n: n
+        if base == buf:
+            return lambda n: blen
+        return None
+
+    sem = loopsem.Sem(ctx, se, lens)
+    loops = util.for_loops(ctx, se)
+    if len(loops) != 1 or len(cfg.back_edges(se.body)) != 1:
+        return None
+    r = sem.statements(loops[0])
+    if r is None:
+        return None
+    stmts, count = r
+    want = [(buf, (1, 0), ("at", strip(enc_data), (1, 0)))]
+    if [(d, A, v) for d, A, v in stmts] != want or any(count(n) < min(n, blen) for n in range(0, blen + 1)):
+        return None
+    # the raw operation precedes the copy; no other call touches self or the data
+    names = [c["name"].split("::")[-1] for c in calls if c is not raws[0]]
+    if any(n_ not in ("iter_mut", "iter", "zip", "into_iter", "next", "len", "index", "enumerate") for n_ in names):
+        return None
+    # no store to self other than through the loop's destination
+    for (bi, si), (loc, v) in se.assigns.items():
+        root = loc
+        while root[0] in ("field", "index", "cindex", "subslice", "downcast"):
+            root = root[1]
+        if root in (self_root, data_root):
+            return None
+    # result = &buffer[..header.len()]
+    rv = strip(se.ret)
+    ok_ret = False
+    if util.is_call(rv) and rv[1].endswith("::index") and strip(rv[2][1])[0] == "agg":
+        rg = strip(rv[2][1])
+        ia = se.term_info.get(rv[3][1], {}).get("locargs", (("?",),))[0]
+        end = util.numnorm(rg[4][-1])
+        lo_ok = rg[2] == "std::ops::RangeTo" or (rg[2] == "std::ops::Range" and util.numnorm(rg[4][0])[:2] == ("int", 0))
+        ok_ret = lo_ok and ia == ("ref", buf, False) and end[0] == "len" and strip(end[1]) in (strip(enc_data), ("param", 2))
+    if not ok_ret:
+        return None
+    _STORE[key] = sh[0]
+    return sh[0]
+
+
 def check(ctx, rep):
     fb = ctx.fb
     # ------------------------------------------------------------------ encoder
@@ -184,7 +267,23 @@ def check(ctx, rep):
         desc = "?"
         raw_ok = False
         whole = fu.get(shf)
-        if whole is not None and raw_application(ase, whole) and fb.ty(fb.adt_fields(ENC)[shf]["ty"]).len == n:
+        helper_calls = [i for i in ase.term_info.values() if i.get("k") == "call" and i["name"] in fb.bodies and store_helper(ctx, i["name"]) == shf]
+        via_helper = None
+        if len(helper_calls) == 1 and helper_calls[0]["locargs"][0] == ("ref", self_root, True):
+            hc = helper_calls[0]
+            old_hdr = ase.call_old.get((hc["site"], 1))
+            plain = arith.byte_canon(arith.norm(old_hdr)) if old_hdr is not None else ("?",)
+            if plain[0] == "arr" and len(plain[1]) == n and strip(retv) == strip(hc["term"]):
+                # the helper encrypts the whole array once, keeps it at the front of the buffer
+                # and returns exactly those len(array) bytes
+                via_helper = hc
+                raw_ok = True
+                enc_bytes[arm] = plain[1]
+                good = tuple(plain[1]) == want_plain[arm]
+                desc = "[%s] (through %s)" % (", ".join(arith.show(x) for x in plain[1]), hc["name"].split("::")[-1])
+        if via_helper is not None:
+            pass
+        elif whole is not None and raw_application(ase, whole) and fb.ty(fb.adt_fields(ENC)[shf]["ty"]).len == n:
             # the encrypted header array is assigned to the output buffer as a whole
             plain = arith.byte_canon(arith.norm(whole[3]))
             raw_ok = True
@@ -222,7 +321,9 @@ def check(ctx, rep):
         # returned slice = exactly those n bytes
         rv = retv
         good = False
-        if rv[0] == "ref" and rv[1] == ("field", self_root, shf) and fb.ty(fb.adt_fields(ENC)[shf]["ty"]).len == n:
+        if via_helper is not None:
+            good = True
+        elif rv[0] == "ref" and rv[1] == ("field", self_root, shf) and fb.ty(fb.adt_fields(ENC)[shf]["ty"]).len == n:
             good = True
         else:
             if rv[0] == "ref" and rv[1][0] == "subslice" and rv[1][1] == ("field", self_root, shf) and rv[1][2:] == (0, n, False):
@@ -232,7 +333,7 @@ def check(ctx, rep):
                 lo, hi = [util.numnorm(y) for y in x[2][1][4]]
                 good = lo[:2] == ("int", 0) and hi[:2] == ("int", n)
         rep.check(good, "encoder", fn, arm + "-returned-slice", "returns exactly the %d emitted bytes" % n, "%s form does not return exactly the first %d bytes of the output buffer" % (arm, n), body.loc())
-    n_raw = {arm: sum(1 for i in arm_se[arm].term_info.values() if i.get("k") == "call" and i["name"] in (ENC + "::encrypt", IC + "::apply")) for arm in arm_se}
+    n_raw = {arm: sum(1 for i in arm_se[arm].term_info.values() if i.get("k") == "call" and (i["name"] in (ENC + "::encrypt", IC + "::apply") or (i["name"] in fb.bodies and store_helper(ctx, i["name"]) is not None))) for arm in arm_se}
     rep.check(all(v == 1 for v in n_raw.values()), "stream-step", fn, "one-raw-per-arm", "each arm applies the raw operation once", "raw operations per arm of the encoder: %s" % n_raw, body.loc())
 
     # ------------------------------------------------------------------ decoder: attempt
